@@ -26,7 +26,7 @@ CHECKS = {
         "groups": [{
             "pkg": BS, "funcs": ["VerifC13Snapshot"],
             "params": {"quick": {"T": 3, "SIZES": 0}, "thorough": {"T": 4, "SIZES": 0}},
-            "covers": {"VerifC13Snapshot": ["empty", "chain", "replicated", "merged", "saved", "loaded"]},
+            "covers": {"VerifC13Snapshot": ["empty", "chain", "replicated", "merged", "saved", "loaded", "partly-held"]},
         }, {
             "pkg": BS, "funcs": ["VerifC13Snapshot"],
             "cross_solvers": ["cvc5", "z3-new"], "params": {"quick": {"T": 2, "SIZES": 1048576}, "thorough": {"T": 3, "SIZES": 1048576}},
@@ -40,6 +40,7 @@ CHECKS = {
             "covers": {"VerifC13PendingQueue": ["replication-in-progress", "saved", "loaded"]},
         }],
         "assumptions": [
+            "the loading instance is fresh, or already holds the complete branch under ONE of the saved heads (received from a peer before the snapshot is loaded)",
             "log shapes: empty, single-writer chain of T entries, two writers with concurrent chains of any lengths nb + na = T, replicated (so the replicator's task table is non-empty and the heads have equal or different clock times), optionally merged by a later local write; the real SaveSnapshot, GetQueue, LoadFromSnapshot, NewFromJSON, Join run over an in-memory Unixfs and cache",
             "size clause: every encoded header / entry / queue document has a SYMBOLIC byte length in [2, 2^20]; the snapshot file is a rope of segments with symbolic lengths, length prefixes are computed by the real uint16 conversions and PutUint16/Uint16 on symbolic values; a read at a symbolic offset asks the solver whether offset and length are forced to coincide with a written segment, otherwise the bytes read are unconstrained",
             "a counterexample of the size clause is replayed natively with payloads that are really that large",
@@ -132,12 +133,19 @@ CHECKS = {
             "max_paths": {"quick": 60000, "thorough": 800000},
             "timeout": {"quick": "10m", "thorough": "60m"},
             "covers": {"VerifSysOpenRace": ["opened"]},
+        }, {
+            "pkg": BS, "funcs": ["VerifC02RestartRace"],
+            "params": {"quick": {"T": 2, "B": 1, "P": 1}, "thorough": {"T": 2, "B": 2, "P": 1}},
+            "max_paths": {"quick": 60000, "thorough": 600000},
+            "timeout": {"quick": "10m", "thorough": "60m"},
+            "covers": {"VerifC02RestartRace": ["raced", "healed"]},
         }],
         "assumptions": [
             "closed system of two replicas inside one interpreter, each a real BaseStore with replication enabled over stub pubsub / direct channel and its own block store (blocks of the connected peer are fetchable)",
             "fault plan (symbolic): STEPS steps, each a write on a or b whose announcement (the payload the real handleEventWrite published on the topic) is delivered to the other side or lost, or a restart of a (Close, fresh store over the same cache and blocks, real Load)",
             "final phase: writes stop; each side observes the other joining its topic (EventPubSubJoin on the watcher channel); the payload each real exchangeHeads sends on the direct channel is decoded and handed to the other store's Sync, as baseorbitdb's handler does; run to quiescence",
             "oracle: both replicas hold every acknowledged write and list identical ordered logs",
+            "restart race (VerifC02RestartRace): a replica with T persisted writes restarts while another replica holds B writes it has not seen (written on top of its history or concurrently); Load from its own heads cache runs concurrently with the Sync of the heads the other side sends - every schedule with at most P preemptions - then the same heads are exchanged once more; the restarted replica holds every acknowledged write of both",
             "open race (VerifSysOpenRace): a peer opens the database while a replica holding 1..2 acknowledged writes is connected and idle; the heads that replica sends on seeing the join may arrive before Open has returned: every schedule of the opening thread and the threads it starts with at most P preemptions; the opened replica must hold every acknowledged write at quiescence",
             "system harness (VerifSysHeal): PEERS real orbitDB INSTANCES (newOrbitDB, Create/Open, createStore, monitorDirectChannel, handleEventExchangeHeads, the stores' storeListener / pubSubChanListener / exchangeHeads) wired by the real code over a simulated network (pubsub with join/leave notifications and fan-out, pairwise direct channel emitting on the receiver's bus, link cuts); fault plan of STEPS steps: write on any peer (each publication towards each subscriber delivered / lost / duplicated), cut or heal a link, restart a peer over its directory, restart a peer that has not written with its storage lost (in-memory cache), close a peer's replica of the database (the store only) and reopen it later on the same instance; final phase: closed replicas reopened, every link re-established; blocks of a connected peer are fetchable",
         ],
@@ -151,8 +159,9 @@ CHECKS = {
            {"cross_solvers": ["cvc5", "z3-new"], "pkg": ACS, "funcs": ["VerifC03CanAppend"], "covers": {"VerifC03CanAppend": ["decided", "after-genuine"]}},
            {"pkg": ACO, "funcs": ["VerifC03CanAppend"], "covers": {"VerifC03CanAppend": ["decided", "after-genuine"]}},
            {"pkg": ODB, "funcs": ["VerifC03Instance"],
-            "covers": {"VerifC03Instance": ["created", "via-sync", "via-direct-channel", "via-topic", "delivered", "local-write-refused"]}}],
+            "covers": {"VerifC03Instance": ["created", "via-sync", "via-direct-channel", "via-topic", "delivered", "local-write-refused", "opener-passes-own-list", "opener-reuses-parameters"]}}],
         "assumptions": [
+            "the non-writer opens the restricted database passing access-controller parameters of its own (an explicit list naming itself, or a value it used before to create its own database): the opened store reports and enforces the list recorded at creation",
             "Dolev-Yao attacker with perfect symbolic cryptography: verify(pub, m, s) <=> s = sign(pub, m); the attacker can sign only with its own key, copy any public field (ids, identity blocks, keys, signatures of honest entries) and re-address entries",
             "forged author fields: identity block (own / own with the writer's id - with the attacker's own identity signatures, the id re-signed with the attacker's key and the writer's or the attacker's voucher, or the writer's id signature COPIED with the attacker's or the writer's voucher - / copy of the writer's) x key (own / writer's) x signature (own over the content / copied from an honest writer entry / garbage) x clock id; delivered as an announced head or as the ancestor of a colluding writer's entry to a replica with an explicit write list, through the real Sync, replicator, Join, Entry.Verify, ToHashable and the REAL OrbitDBIdentityProvider.VerifyIdentity",
             "local write by an identity outside / inside the list, under the wildcard, and with the default (creator-only) list",
@@ -170,8 +179,12 @@ CHECKS = {
             "pkg": BS, "funcs": ["VerifC04ForeignChain"],
             "params": {"quick": {"F": 3, "H": 3}, "thorough": {"F": 5, "H": 4}},
             "covers": {"VerifC04ForeignChain": ["via-refs", "via-next", "restarted", "relayed", "trimmed-load", "trimmed-load-after-restart"]},
+        }, {
+            "pkg": BS, "funcs": ["VerifC04Snapshot"],
+            "covers": {"VerifC04Snapshot": ["snapshot-rewritten", "impersonates-an-ancestor", "impersonates-the-head", "loaded"]},
         }],
         "assumptions": [
+            "snapshot route (VerifC04Snapshot): the snapshot file of a two-entry log is rewritten (it is referenced from the local cache only): the frame of the ancestor or of the head is replaced by another validly signed entry of the same writer and database that CLAIMS the replaced entry's address; a fresh instance loads it; every merged entry must hash to the address it is listed under",
             "a valid entry of an authorised writer, one field of its wire form replaced (payload by a symbolic byte, clock time by ANY other 64-bit value, clock id, next, refs, key, signature, log id, only the claimed address, or the claimed address replaced by an alias with the same multihash digest and another codec), keeping the claimed address or re-addressed; delivered as an announced head or (re-addressed) as the ancestor of a valid head",
             "content addressing = perfect hash of every wire field except the hash; ancestors are fetched by hash, hence their content is whatever hashes to it; perfect symbolic signatures over the hashable form computed by the real ToHashable/toBuffer",
             "foreign chain: a valid entry of a writer of A (on top of A's own chain of 1..H entries) links (refs / next / both) to the head of a chain of 1..F entries validly written for another database; delivered as an announced head, then either nothing, or restart + Load from the replica's own disk (the whole ancestry is fetched as ONE log and filtered by ownEntriesOnly), or relayed to a fresh replica, or followed by Load(n), n in 1..3, smaller or not than what the store holds (the trimming pass of joinTrimmed), on the live store or after restart + full load; oracle: nothing listed, no head and nothing served carries another log id",
@@ -354,8 +367,13 @@ CHECKS = {
             "max_paths": {"quick": 60000, "thorough": 600000},
             "timeout": {"quick": "10m", "thorough": "60m"},
             "covers": {"VerifC15Load": ["loaded", "stale-remote-heads", "schedules-explored"]},
+        }, {
+            "pkg": BS, "funcs": ["VerifC15Sequence"],
+            "params": {"quick": {"T": 4}, "thorough": {"T": 6}},
+            "covers": {"VerifC15Sequence": ["grew-by-writes", "grew-by-load-more", "loaded-again"]},
         }],
         "assumptions": [
+            "load sequences on one open store (VerifC15Sequence): persisted single-writer log of T entries; Load(n), n in 1..T; then nothing, 1..2 local writes, or LoadMoreFrom of the older history; then Load(m), m in 1..held; exactly the m most recent held entries are visible in order (a later load with a limit LARGER than what the store holds is outside: the unchanged code fetches nothing below entries it already holds - observed, documented in DESIGN)",
             "persisted log built by real AddOperation calls (single-writer chain of T entries), by two writers with a real Sync (local + remote cached heads), or by replicating another writer's chain and then writing again (stale cached remote heads below a newer local head); then Close and a fresh store over the same cache and block store",
             "Load's per-head goroutines run under every schedule with at most P preemptions (switch or stall) at visible operations",
             "limit = ANY 64-bit integer (symbolic), passed per call or through MaxHistory (then the call argument is -1 or 0)",
@@ -438,7 +456,7 @@ CHECKS = {
             "params": {"quick": {"H": 1}, "thorough": {"H": 2}},
             "max_paths": {"quick": 60000, "thorough": 400000},
             "timeout": {"quick": "10m", "thorough": "60m"},
-            "covers": {"VerifSysMalformed": ["raw-bytes", "ill-typed", "malformed-heads", "misrouted-valid-head", "foreign-head-for-A", "via-direct-channel", "via-topic-A", "via-topic-B", "burst", "valid-after"]},
+            "covers": {"VerifSysMalformed": ["raw-bytes", "ill-typed", "malformed-heads", "misrouted-valid-head", "foreign-head-for-A", "via-direct-channel", "via-topic-A", "via-topic-B", "burst", "valid-after", "address-of-a-failed-open"]},
         }],
         "assumptions": [
             "raw direct-channel stream = ANY byte string of length 0..B (every byte symbolic): every varint incl. 10-byte overflowing ones and every declared length; real bufio.Reader, binary.ReadUvarint, io.ReadFull are interpreted",
@@ -446,6 +464,7 @@ CHECKS = {
             "head-exchange message: json.Unmarshal over-approximated by ANY value of the message type: 1..H heads, each null or an entry with identity (absent / without signatures / complete, naming a writer), clock (absent / any 64-bit time), hash, next, key+sig independently absent or present; delivered on the store's topic of a replica built by the real InitBaseStore; afterwards a valid head (real ipfs-log Append by a second device of the writer) must still replicate through the real replicator, fetcher, Join",
             "stub IO mirrors the nil-dereferences of the real CBOR IO (ToJsonableLamportClock / ToJsonableIdentitySignature), confirmed natively against the real IO",
             "pacing: the valid message arrives after the malformed one was handled, or in the same burst right behind / right before it (both waiting in the channel buffer)",
+            "a heads message may also name the address of a database whose OPEN FAILED on the receiving instance (store constructor error): it is not open, the message is to be dropped and later traffic handled",
             "instance level (VerifSysMalformed): a real orbitDB instance with two databases receives on its direct channel (real monitorDirectChannel -> getStore -> handleEventExchangeHeads) or on either database's topic a payload that is raw bytes, ill-typed JSON, a message addressed to database A / B / the empty address / an unknown address / 2 symbolic bytes with malformed heads, or a VALID head of A in a message naming B; alone or in one burst with an honest message; afterwards a head exchange on join and an announcement must still be handled",
         ],
         "outside": ["panics inside encoding/json, libp2p or cbor themselves", "byte-level JSON mutations (covered through their decode result only)"],
@@ -537,7 +556,7 @@ CHECKS = {
             "funcs": ["VerifC19Step", "VerifC19Rest", "VerifC19History"],
             "params": {"quick": {"STEPS": 3}, "thorough": {"STEPS": 5}},
             "max_paths": {"quick": 20000, "thorough": 200000},
-            "covers": {"VerifC19Step": ["max", "status"], "VerifC19Rest": ["update", "no-update"], "VerifC19History": ["history", "reloaded", "snapshot-saved", "snapshot-loaded", "fresh-from-snapshot"]},
+            "covers": {"VerifC19Step": ["max", "status"], "VerifC19Rest": ["update", "no-update"], "VerifC19History": ["history", "reloaded", "snapshot-saved", "snapshot-loaded", "fresh-from-snapshot", "loaded-while-open"]},
         }, {
             "pkg": ODB, "funcs": ["VerifSysTwoDBs"],
             "params": {"quick": {"N": 2}, "thorough": {"N": 3}},
@@ -549,6 +568,7 @@ CHECKS = {
             "covers": {"VerifEngineSelfTest": ["self-tested"], "VerifEngineSelfTest2": ["self-tested"]},
         }],
         "assumptions": [
+            "history steps also include a Load on the OPEN store from its own disk (everything, or the 1..2 most recent entries); after a load that trimmed the log only the never-decrease clause is checked on that store (its log is no longer complete)",
             "inductive step: pre-state is ANY (progress, max, log length) with 0 <= progress <= max < 2^62, 0 <= length < 2^62; argument 0 <= x < 2^62",
             "entry points encoded: recalculateReplicationMax (main loop EventLoadAdded, LoadFromSnapshot) and recalculateReplicationStatus (AddOperation, Load, replicationLoadComplete, EventLoadProgress); recalculateReplicationProgress is only ever called from recalculateReplicationStatus",
             "oplog is a stub exposing only Len() (symbolic); replicationInfo is the real type",
